@@ -130,12 +130,15 @@ fn router_history(ctx: &Ctx, out: &mut Outcome, rng: &mut Rng, idx: u64) {
         let got = router.get_shard(&key).map(|s| s.generation);
         if !near_ttl && got != expect {
             let newest = cached.map(|c| c.0);
-            let sig = match (got, newest) {
-                (Some(g), Some(n)) if g < n => "C13/router/older-generation-replaced-newer",
-                _ => "C13/router/lookup-differs-from-model",
-            };
+            let older = matches!((got, newest), (Some(g), Some(n)) if g < n);
+            if !older {
+                // anything else (an entry withheld or handed out although the model would not) is not what C13 is
+                // about - the property fences generations: an observation
+                out.count("router_model.lookups_differing_from_the_model_without_a_generation_regression", 1);
+                continue;
+            }
             out.violation(
-                sig,
+                "C13/router/older-generation-replaced-newer",
                 &format!("after {:?} the router answers generation {:?}; the newest generation it was told (and has not invalidated) is {:?}, a lookup should give {:?}", trace, got, newest, expect),
                 json!({"lane": "router-model", "history": idx, "seed": ctx.seed, "trace": trace}),
             );
